@@ -26,7 +26,7 @@ import (
 type gcSub struct {
 	Name        string
 	Topic       string
-	Behav       string // ack | nack1 | nack2 | mutate | slow | neverack | republish:<topic>
+	Behav       string // ack | nack1 | nack2 | mutate | slow | neverack | republish:<topic> | peek | stall2 (stalls 900 ms on its second message)
 	Phase       int    // 0 before the publishers, 1 concurrently with them, 2 after they finished
 	CancelAfter int    // cancel the subscription context after that many receipts (0 = never)
 	CancelAt    int    // or in phase: 1 concurrently with the publishers, 2 after them (0 = never)
@@ -54,7 +54,7 @@ type gcScenario struct {
 	Buffer     int
 	Subs       []gcSub
 	Pubs       []gcPub
-	CloseAt    int // 1 concurrently with the publishers, 2 after quiescence (always closed at the end anyway)
+	CloseAt    int // 1 concurrently with the publishers, 2 after quiescence (always closed at the end anyway), 3 concurrently with the phase-2 Subscribe calls
 	Closers    int
 	Gate       *gcGate
 	Yield      int
@@ -90,6 +90,8 @@ type gcRunner struct {
 	subOK         map[string]int    // subscriptions whose Subscribe returned ok -> number of decorators
 	innerClosed   map[string]bool   // gochannel.sub.close.closed seen
 	decClosed     map[string]int    // decorator.sub.closed seen (count)
+	rng           *rand.Rand
+	leakWg        sync.WaitGroup
 }
 
 func gcMetaSnapshot(m *message.Message) string {
@@ -271,6 +273,8 @@ func (x *gcRunner) consume(s gcSub, ch <-chan *message.Message, cnt *int32, canc
 			x.publish("c"+s.Name, strings.TrimPrefix(s.Behav, "republish:"), 1, false)
 		case s.Behav == "slow":
 			time.Sleep(2 * time.Millisecond)
+		case s.Behav == "stall2" && n == 2:
+			time.Sleep(900 * time.Millisecond)
 		}
 		if s.Behav == "mutate" {
 			msg.Metadata.Set("k", "edited-by-"+s.Name)
@@ -290,10 +294,16 @@ func (x *gcRunner) consume(s gcSub, ch <-chan *message.Message, cnt *int32, canc
 		}
 		x.mu.Unlock()
 		mctx := msg.Context()
+		leakBound := 3 * time.Second
+		if s.Behav == "stall2" {
+			leakBound = 400 * time.Millisecond // (the next message is held for 900 ms: the context has to end because of the Ack, not because of later deliveries)
+		}
+		x.leakWg.Add(1)
 		go func() {
+			defer x.leakWg.Done()
 			select {
 			case <-mctx.Done():
-			case <-time.After(3 * time.Second):
+			case <-time.After(leakBound):
 				x.emit("ctxleak", "s", s.Name, "m", mid)
 			}
 		}()
@@ -413,7 +423,7 @@ func (x *gcRunner) fire(ev string) {
 }
 
 func gcRun(r *tr.Run, sc gcScenario, rng *rand.Rand) (gateReached bool) {
-	x := &gcRunner{r: r, sc: sc, prefix: fmt.Sprintf("r%d-", r.ID), seen: map[*message.Message]bool{}, orig: map[string]*message.Message{},
+	x := &gcRunner{r: r, sc: sc, rng: rng, prefix: fmt.Sprintf("r%d-", r.ID), seen: map[*message.Message]bool{}, orig: map[string]*message.Message{},
 		snap: map[string]string{}, recvCnt: map[string]*int32{}, cancels: map[string]context.CancelFunc{}, closeReturned: make(chan struct{}),
 		subOK: map[string]int{}, innerClosed: map[string]bool{}, decClosed: map[string]int{},
 		expMin: map[string]map[string]bool{}, ackedBy: map[string]map[string]bool{}, subTopic: map[string]string{}, subLive: map[string]bool{}, pubTopic: map[string]string{}}
@@ -590,6 +600,15 @@ func (x *gcRunner) body() (gateReached bool) {
 	}
 	<-waitOr(waitWG(&p1), HangBound)
 	// phase 2
+	var p2 sync.WaitGroup
+	if sc.CloseAt == 3 {
+		p2.Add(1)
+		go func() {
+			defer p2.Done()
+			time.Sleep(time.Duration(50+x.rng.Intn(400)) * time.Microsecond)
+			x.fire("close")
+		}()
+	}
 	for _, s := range sc.Subs {
 		if s.Phase == 2 {
 			x.subscribe(s)
@@ -598,6 +617,7 @@ func (x *gcRunner) body() (gateReached bool) {
 			x.fire("cancel:" + s.Name)
 		}
 	}
+	<-waitOr(waitWG(&p2), HangBound)
 	// a blocking Publish must return once every subscription that does not ack has been cancelled
 	obstacle := false
 	for _, sb := range sc.Subs {
